@@ -3,12 +3,65 @@
 COMMON_TRUST = [
     "pyvc itself (VC generator, encodings of the numba subset, DESIGN 3.2) and the SMT solvers z3 5.1 / cvc5 / z3 4.8",
     "extraction drops decorators, docstrings, comments, annotations: numba is assumed to compile the function to the "
-    "semantics of DESIGN 3.2 (no bounds checks, int64, IEEE comparisons, python min/max)",
+    "semantics of DESIGN 3.2 (no bounds checks, int64, IEEE comparisons, python min/max); cross-checked on every run "
+    "by evaluating each contract on the real compiled function for generated inputs",
 ]
 MATH_ARITH = ("machine arithmetic treated as mathematical: + - * / on finite floats are exact reals; int64 index "
               "arithmetic is unbounded (offsets < 2^31 by well-formedness)")
+NUMPY_TRUST = ("assumed numpy/numba contracts (DESIGN App. A): element-wise operations, boolean-mask / fancy indexing and "
+               "stores, np.nonzero, np.any, slices with numpy clamping, overlap-safe slice assignment, min/max over a "
+               "non-empty array")
+RTC = ('rtc_stage', 'run_rtc')
+RTC_NOTE = ("glue layer (methods on pyarrow-backed arrays, pandas / dask objects) is outside the verifier's subset: covered by "
+            "contracts evaluated at run time on the real code for generated inputs (rtc/, reference = exact rational oracle "
+            "over the abstract view). This is a bounded stand-in: it is reported under coverage.run_rtc and never counted in "
+            "obligations/discharged")
+T1 = ("T1/T2 (mathematical facts, not proved here): for a valid polygon (holes inside the shell, wound opposite to it) a point on "
+      "no ring is inside <=> winding number != 0, and the winding number is constant on a connected set meeting no ring")
 
 PLAN = {
+    'C01': dict(
+        modules=['c14_measures', 'c15_orient', 'c02_point', 'c13_bounds', 'c01_box'], level='other', stages=[RTC],
+        trusted_base=COMMON_TRUST + [NUMPY_TRUST], assumptions=[MATH_ARITH, 'coordinates finite', T1, RTC_NOTE],
+        explanation="proved: triangle_orientation, segments_intersect_1d, segments_intersect (under its call-site "
+                    "precondition), point_intersects_polygon (= winding number), total_bounds_interleaved, "
+                    "multipoints_intersect_bounds; the line / polygon drivers and all array wrappers are covered by the "
+                    "run-time checked contract against the exact oracle (bounded)",
+    ),
+    'C02': dict(
+        modules=['c14_measures', 'c02_point'], level='other', stages=[RTC],
+        trusted_base=COMMON_TRUST + [NUMPY_TRUST], assumptions=[MATH_ARITH, 'coordinates finite', T1, RTC_NOTE],
+        explanation="proved: segment_intersects_point, point_intersects_polygon, _perform_intersects_polygon, "
+                    "_perform_intersects_multipoint, most of _perform_intersects_line (two invariants by stand-in); Point / "
+                    "PointArray wrappers (inds handling, missing points) by the run-time checked contract (bounded)",
+    ),
+    'C03': dict(
+        modules=['c03_rtree'], level='other', stages=[RTC],
+        trusted_base=COMMON_TRUST, assumptions=[MATH_ARITH, RTC_NOTE],
+        explanation="index arithmetic (_left_child/_right_child/_parent/_leaf_start/_start_index/_stop_index incl. "
+                    "termination) and the tiling lemmas are proved; build and query worklist (python lists of symbolic "
+                    "length) are outside the engine's subset and covered by the run-time checked API contract (bounded): "
+                    "random box sets incl. NaN rows, d in 1..3, page sizes 1..n+1, p in 1..31",
+    ),
+    'C04': dict(
+        modules=[], level='other', stages=[RTC], stand_in_only=True,
+        trusted_base=COMMON_TRUST, assumptions=[RTC_NOTE],
+        explanation="cx is pandas/pyarrow glue over C01/C03/C13: no function of it is inside the verifier's subset; decided only "
+                    "by the bounded stand-in (array / series / frame, with and without a spatial index of random p and page "
+                    "size, omitted / reversed slice ends) against the exact C01 oracle",
+    ),
+    'C05': dict(
+        modules=[], level='other', stages=[RTC], stand_in_only=True,
+        trusted_base=COMMON_TRUST, assumptions=[RTC_NOTE],
+        explanation="sjoin is pandas merge glue over C02/C03/C13; decided only by the bounded stand-in: pair table, index and "
+                    "suffix handling for how in {inner,left,right} against the exact C02 oracle",
+    ),
+    'C06': dict(
+        modules=[], level='other', stages=[RTC], stand_in_only=True,
+        trusted_base=COMMON_TRUST, assumptions=[RTC_NOTE, 'synchronous dask scheduler'],
+        explanation="dask glue; decided only by the bounded stand-in: cx, cx_partitions, bounds, total_bounds, area, "
+                    "intersects_bounds on from_pandas / parquet frames with 1..n partitions vs the pandas result",
+    ),
     'C07': dict(
         modules=['c07_hilbert'], level='proof',
         timeout={'quick': 120, 'thorough': 900},
@@ -16,52 +69,74 @@ PLAN = {
         assumptions=["no arithmetic assumption: integers are 64-bit two's-complement bit-vectors with numba's operator "
                      "semantics (>> arithmetic, // and % floor, << wrapping)",
                      "inputs are int64 values (numba types python ints as int64)",
-                     "vectorised entry points (coordinates_from_distances, distances_from_coordinates) are under contract "
-                     "relative to the scalar contracts"],
+                     "the vectorised entry points (coordinates_from_distances, distances_from_coordinates) are plain row "
+                     "loops over the scalar functions and are not under contract"],
         explanation="per configuration (p,n) all loops are unrolled over the operand width, so each configuration is "
                     "decided for all inputs; quick tier runs a subset of configurations, thorough all 113",
-    ),
-    'C14': dict(
-        modules=['c14_measures'], level='proof',
-        trusted_base=COMMON_TRUST,
-        assumptions=[MATH_ARITH, "sqrt is an uninterpreted function: 'exact' means equal as real expressions; IEEE "
-                     "rounding of the sums is not verified", "area contracts are for finite coordinates"],
-    ),
-    'C15': dict(
-        modules=['c14_measures', 'c15_orient'], level='proof',
-        trusted_base=COMMON_TRUST + ["assumed numpy/numba contracts: np.nonzero / boolean-mask selection (increasing "
-                                     "positions of the true cells), fancy-index store, overlap-safe strided slice "
-                                     "assignment (right-hand side read before the store)"],
-        assumptions=[MATH_ARITH, "coordinates finite"],
-    ),
-    'C02': dict(
-        modules=['c14_measures', 'c02_point'], level='proof',
-        trusted_base=COMMON_TRUST + ["assumed numba contract: min/max over a non-empty finite 1-d array return its least / "
-                                     "greatest element; np.any over an element-wise comparison = exists"],
-        assumptions=[MATH_ARITH, "coordinates finite",
-                     "T1 (mathematical fact, not proved here): for a valid polygon (holes inside the shell, wound "
-                     "opposite to it) and a point on no ring, strictly inside <=> winding number != 0"],
-    ),
-    'C03': dict(
-        modules=['c03_rtree'], level='other',
-        trusted_base=COMMON_TRUST,
-        assumptions=[MATH_ARITH],
-        explanation="index arithmetic (_left_child/_right_child/_parent/_leaf_start/_start_index/_stop_index incl. "
-                    "termination) and the tiling lemmas are proved; build and query worklist (python lists of symbolic "
-                    "length) are outside the engine's subset and covered by the run-time checked API contract (bounded)",
+        crosscheck={'quick': 4, 'thorough': 20},
     ),
     'C08': dict(
-        modules=['c08_hilbert_distance'], level='other',
-        trusted_base=COMMON_TRUST + ["assumed numpy contracts: element-wise arithmetic with a scalar, astype(int64) = "
-                                     "truncation of finite values, boolean-mask store"],
+        modules=['c08_hilbert_distance'], level='other', stages=[RTC],
+        trusted_base=COMMON_TRUST + [NUMPY_TRUST],
         assumptions=[MATH_ARITH, "distances_from_coordinates is used through an assumed math-mode view of the "
-                     "bit-vector function verified under C07"],
+                     "bit-vector function verified under C07", RTC_NOTE],
         explanation="numeric core (_data2coord, _distances_from_bounds) proved; GeometryArray.hilbert_distance (list/tuple "
-                    "handling, frame) covered by the run-time checked contract (bounded)",
+                    "handling, argument unmodified, independence of context) by the run-time checked contract (bounded)",
+    ),
+    'C09': dict(
+        modules=[], level='other', stages=[RTC], stand_in_only=True,
+        trusted_base=COMMON_TRUST, assumptions=[RTC_NOTE, 'synchronous dask scheduler'],
+        explanation="pack_partitions is dask shuffle glue; decided only by the bounded stand-in (row conservation, order, "
+                    "partition count, distance of the ACTIVE geometry)",
+    ),
+    'C12': dict(
+        modules=[], level='other', stages=[RTC], stand_in_only=True,
+        trusted_base=COMMON_TRUST, assumptions=[RTC_NOTE, 'local filesystem, synchronous dask scheduler'],
+        explanation="parquet metadata glue; decided only by the bounded stand-in: partition_bounds per loaded partition for "
+                    "every geometry column (2, 3, 12 partitions), pruning never loses an intersecting row",
     ),
     'C13': dict(
-        modules=['c13_bounds'], level='proof',
+        modules=['c13_bounds'], level='other', stages=[RTC],
+        trusted_base=COMMON_TRUST, assumptions=[MATH_ARITH, RTC_NOTE],
+        explanation="the three bounds kernels are proved for all lengths and all float values incl. NaN/inf, with the "
+                    "declarative reading of the spec by inductive lemmas; array / series / dask / sindex wrappers by the "
+                    "run-time checked contract (bounded)",
+    ),
+    'C14': dict(
+        modules=['c14_measures'], level='other', stages=[RTC],
         trusted_base=COMMON_TRUST,
-        assumptions=[MATH_ARITH],
+        assumptions=[MATH_ARITH, "sqrt is an uninterpreted function: 'exact' means equal as real expressions; IEEE "
+                     "rounding of the sums is not verified", "area contracts are for finite coordinates", RTC_NOTE],
+        explanation="compute_line_length, compute_area and the three prange map kernels (incl. iteration independence) are "
+                    "proved; scalar / array wrappers and boundary by the run-time checked contract (bounded)",
+    ),
+    'C15': dict(
+        modules=['c14_measures', 'c15_orient'], level='other', stages=[RTC],
+        trusted_base=COMMON_TRUST + [NUMPY_TRUST],
+        assumptions=[MATH_ARITH, "coordinates finite", RTC_NOTE],
+        explanation="orient_polygons proved (ring-wise identity-or-reverse, decided by the signed area and the shell/hole "
+                    "role, cells outside rings untouched, all stores in bounds); oriented() wrappers, idempotence and input "
+                    "immutability by the run-time checked contract (bounded)",
+    ),
+    'C16': dict(
+        modules=['c16_isnull'], level='other', stages=[RTC],
+        trusted_base=COMMON_TRUST, assumptions=[RTC_NOTE],
+        explanation="_perform_extract_isnull_bytemap proved (bit (offset+i) of the validity bitmap, for every offset); "
+                    "__getitem__/take/concat/copy/pickle and view-determinacy of every derived quantity by the run-time "
+                    "checked contract over random derivation histories (bounded)",
+    ),
+    'C17': dict(
+        modules=['c13_bounds', 'c14_measures'], level='other', stages=[RTC],
+        trusted_base=COMMON_TRUST, assumptions=[MATH_ARITH, RTC_NOTE],
+        explanation="inertness clauses that are inside proved contracts: an empty coordinate range gives a NaN bounds row and "
+                    "contributes nothing to total bounds (C13 spec + lemmas), missing rows are skipped by the map kernels "
+                    "(C14); everything else (predicates, cx, sjoin, R-tree, Dask) by the run-time checked contracts (bounded)",
+    ),
+    'C20': dict(
+        modules=[], level='other', stages=[RTC], stand_in_only=True,
+        trusted_base=COMMON_TRUST, assumptions=[RTC_NOTE],
+        explanation="pandas subclassing glue; decided only by the bounded stand-in: set_geometry / default, propagation "
+                    "through copy, row selection, sort, column subset, cx, pickle, concat, head; Dask partitions and compute; "
+                    "read_parquet_dask(geometry=)",
     ),
 }
